@@ -113,7 +113,7 @@ func TestC08(t *testing.T) {
 		fmt.Println("REPLAY case passed")
 		return
 	}
-	ev.Rule("inputs: every repository image and profile, grammar-built seeds (incl. profiles > 4 KiB), hostile mini-files, rapid-generated valid files (ICC up to 70 KB, chunk headers straddling 4096*k), rapid structure-aware mutations and truncations of all of these. Schedules per input: fixed segment sizes 1,2,3,7,8,4095,4096,4097, a first read ending at each structure boundary followed by one piece or by a 4096/8192/65536-byte piece and crumbs, rapid size lists, final data together with EOF, every n-th read returning (0, nil); for the ICC reader bufio readers of size 16/64/4096/65536 in front of the scheduled source. Oracle (metamorphic): outcome tuple == outcome under all-at-once delivery from bytes.Reader. non-trivial = distinct (input, schedule) whose source delivered the input in >= 2 calls or returned a short count")
+	ev.Rule("inputs: every repository image and profile, grammar-built seeds (incl. profiles > 4 KiB), hostile mini-files, rapid-generated valid files (ICC up to 70 KB, chunk headers straddling 4096*k), rapid structure-aware mutations and truncations of all of these, a quarter followed by trailing zeros, junk or another file. Schedules per input: fixed segment sizes 1,2,3,7,8,4095,4096,4097, a first read ending at each structure boundary followed by one piece or by a 4096/8192/65536-byte piece and crumbs, rapid size lists, final data together with EOF, every n-th read returning (0, nil); for the ICC reader bufio readers of size 16/64/4096/65536 in front of the scheduled source. Oracle (metamorphic): outcome tuple == outcome under all-at-once delivery from bytes.Reader. non-trivial = distinct (input, schedule) whose source delivered the input in >= 2 calls or returned a short count")
 	ev.Assume("error text is not compared, only success/error and values; a source returns (0, nil) only when the case says so (every n-th read, n >= 2, never twice in a row - what io.Reader calls 'nothing happened')")
 	all := append(seeds.All(), seeds.Hostile()...)
 	bad := map[string]bool{}
@@ -144,6 +144,7 @@ func TestC08(t *testing.T) {
 				run(Case{Desc: sd.Name, Data: sd.Data, Target: target, Sizes: sc, DataWithEOF: si%2 == 1})
 				run(Case{Desc: sd.Name, Data: sd.Data, Target: target, Sizes: sc, DataWithEOF: si%2 == 0, Seekable: true})
 				run(Case{Desc: sd.Name, Data: sd.Data, Target: target, Sizes: sc, DataWithEOF: si%2 == 1, ZeroEvery: 2 + si%3})
+				run(Case{Desc: sd.Name + " + 1 trailing byte", Data: append(append([]byte(nil), sd.Data...), 0x55), Target: target, Sizes: sc, DataWithEOF: si%2 == 0})
 			}
 		}
 	}
@@ -236,6 +237,18 @@ func TestC08(t *testing.T) {
 			ops := mut.Gen(rt, data, m, len(all[4].Data), otherEnds, 3)
 			data = mut.Apply(data, m, ops, all[4].Data)
 			c.Desc += fmt.Sprintf(" mutated %v", ops)
+		}
+		// a quarter of the inputs are followed by something else in the stream: junk, zeros, or another file
+		switch rapid.IntRange(0, 11).Draw(rt, "trailing") {
+		case 0:
+			data = append(append([]byte(nil), data...), bytes.Repeat([]byte{0}, rapid.SampledFrom([]int{1, 2, 100, 5000}).Draw(rt, "zeros"))...)
+			c.Desc += " + trailing zeros"
+		case 1:
+			data = append(append([]byte(nil), data...), gen.Payload(rt, "junk", rapid.SampledFrom([]int{1, 3, 4096, 9000}).Draw(rt, "junklen"))...)
+			c.Desc += " + trailing junk"
+		case 2:
+			data = append(append([]byte(nil), data...), all[4].Data...)
+			c.Desc += " + another file"
 		}
 		c.Data = data
 		if kind == "ICC" {
